@@ -1245,6 +1245,40 @@ func runC14(c *Ctx) {
 
 	// ---- all ordered pairs x all operators on the real code
 	r.fillTables()
+	// ---- the operators are observers: evaluated repeatedly on the SAME operand values (built once) they give the
+	// outcomes they give on fresh operands, and leave both operands as they were
+	for i := 0; i < n; i++ {
+		for j := 0; j < n; j++ {
+			a, b := r.pool[i], r.pool[j]
+			if !(a.Kind == 'L' || a.Kind == 'M' || b.Kind == 'L' || b.Kind == 'M') || a.isRandomOrderMap() || b.isRandomOrderMap() {
+				continue
+			}
+			va, vb := a.build(), b.build()
+			c.Count("same-operands-pass")
+			for round := 0; round < 2; round++ {
+				for _, op := range []int{6, 0, 1, 2, 3, 4, 5} { // ~ first
+					crumb("operator " + c14Ops[op] + " on " + a.tokens(nil) + " | " + b.tokens(nil))
+					o := outBool(r.im.opFn[op].Eval(va, vb))
+					if op == 6 && a.Kind == 'L' && ((o == 'E' && r.R[op][i][j] == 'F') || (o == 'F' && r.R[op][i][j] == 'E')) {
+						// list ~ list ("all items contained", see the open finding C14-tilde-lhs-is-list) answers false
+						// from the sizes alone once the right list is materialised and otherwise meets the
+						// incomparable pair first: error vs false, never true vs false
+						c.Count("tilde-list-lhs:error-vs-false-by-materialisation")
+						continue
+					}
+					if o != r.R[op][i][j] {
+						c.Violation("operator-changes-its-operands", fmt.Sprintf("a %s b on operands that were compared before is %c, on fresh operands %c", c14Ops[op], o, r.R[op][i][j]),
+							r.replay("a "+c14Ops[op]+" b (evaluated after a ~ b, a = b, … on the same values)", a, b))
+						round = 2
+						break
+					}
+				}
+			}
+			if ca, cb := canonGo(va), canonGo(vb); ca != canonGo(a.build()) || cb != canonGo(b.build()) {
+				c.Violation("operator-changes-its-operands", "an operand is not the value it was before it was compared", r.replay("a ~ b; a = b; a < b …", a, b))
+			}
+		}
+	}
 	builtins := make([]string, n*n)
 	predFailed := make([]bool, n*n) // the property predicate already failed on this pair
 	for i := 0; i < n; i++ {
